@@ -769,3 +769,78 @@ func (c *Ctx) r105() {
 	c.R.Note("R10.5: %d remembered-position variables, %d deletions at such a position", nMemo, nDel)
 	c.R.Floor(rule, "deletions at a remembered position", nDel, 1)
 }
+
+// R10.6: a linear pass inside a scan loop is capped.
+func (c *Ctx) r106() {
+	const rule = "R10.6"
+	c.R.Rule(rule, "library packages: a call of a helper that walks its whole argument (parse.ToLower, bytes.ToLower / ToUpper / TrimSpace …: cost linear in the slice) with a sub-slice S[lo:hi] of the slice S that the enclosing loop ranges over is a loop inside a loop; it keeps the total work linear only if the span is bounded: the call is dominated by a comparison of an expression over its bounds (hi - lo) with an integer constant. minify.Mediatype documents such a cap (`ToLower may otherwise slow down minification greatly`); without it W bytes of white space followed by Q quoted parameter values cost W×Q")
+	linear := map[string]bool{load.ParseMod + ".ToLower": true, "bytes.ToLower": true, "bytes.ToUpper": true, "bytes.TrimSpace": true, "bytes.Title": true}
+	n := 0
+	for _, rel := range libPkgs {
+		pk := c.P.Pkg(rel)
+		if pk == nil {
+			continue
+		}
+		info := pk.TypesInfo
+		for _, fd := range load.FuncDecls(pk) {
+			if fd.Body == nil {
+				continue
+			}
+			g := c.graph(pk, fd)
+			for _, y := range g.Nodes {
+				a := y.Ast()
+				if a == nil || y.Kind != flow.KStmt {
+					continue
+				}
+				var call *ast.CallExpr
+				var sl *ast.SliceExpr
+				flowInspectCalls(a, func(cl *ast.CallExpr) {
+					if linear[calleeName(info, cl)] && len(cl.Args) >= 1 {
+						if s, ok := ast.Unparen(cl.Args[0]).(*ast.SliceExpr); ok && s.Low != nil && s.High != nil {
+							call, sl = cl, s
+						}
+					}
+				})
+				if call == nil {
+					continue
+				}
+				// inside a range loop over the same slice?
+				var loop *ast.RangeStmt
+				for x := c.P.Parent(call); x != nil; x = c.P.Parent(x) {
+					if rs, ok := x.(*ast.RangeStmt); ok && str(rs.X) == str(sl.X) {
+						loop = rs
+						break
+					}
+					if _, isFn := x.(*ast.FuncDecl); isFn {
+						break
+					}
+				}
+				if loop == nil {
+					continue
+				}
+				n++
+				lo, hi := nospace(str(sl.Low)), nospace(str(sl.High))
+				capped := false
+				for _, f := range g.DomFacts(y) {
+					if f.Test.Kind != flow.KCond {
+						continue
+					}
+					be, ok := ast.Unparen(f.Test.Expr).(*ast.BinaryExpr)
+					if !ok {
+						continue
+					}
+					for _, side := range [][2]ast.Expr{{be.X, be.Y}, {be.Y, be.X}} {
+						if _, isK := intConst(info, side[1]); isK {
+							sx := nospace(str(side[0]))
+							if strings.Contains(sx, lo) && strings.Contains(sx, hi) {
+								capped = true
+							}
+						}
+					}
+				}
+				c.R.Check(capped, rule, fmt.Sprintf("%s.%s/%s inside the loop over %s", pk.Name, load.FuncName(fd), str(call.Fun), str(sl.X)), c.pos(call), "span compared with a constant", "a linear pass over "+str(call.Args[0])+" runs once per iteration of the loop over "+str(sl.X)+" with no cap on the span: quadratic time on crafted input")
+			}
+		}
+	}
+	c.R.Floor(rule, "linear helper calls on a span of the looped-over slice", n, 1)
+}
